@@ -20,7 +20,10 @@ result: {"status": "ok" | "error" | "timeout" | "unreifiable" | "has_t",
 """
 import sys
 import json
+if hasattr(sys, 'set_int_max_str_digits'):
+    sys.set_int_max_str_digits(0)
 import signal
+import time
 import warnings
 import io
 import contextlib
@@ -200,7 +203,8 @@ def xIc(v, m):
 class Point:
     def __init__(self, p, names):
         self.s0 = G(Fraction(p['s0']))
-        self.D = int(p['D'])
+        self.Ds = [int(d) for d in p.get('Ds', [p.get('D', 24)])]
+        self.D = self.Ds[0]
         self.syms = {k: Fraction(v) for k, v in p.get('syms', {}).items()}
         self.names = names      # lower-case function name -> index
 
@@ -406,7 +410,7 @@ def ast_at(sym_ast, pt):
 
 
 # ---------------------------------------------------------------------------------- float oracle
-mp.mp.dps = 30
+mp.mp.dps = 22
 
 
 def cnum(js):
@@ -669,14 +673,32 @@ def run(case):
         out['status'] = 'ok'
         vals = []
         for pt in pts:
-            try:
-                vals.append(pt.ev(R).js())
-            except OffLattice as ol:
-                vals.append({'offlattice': str(ol)})
-            except Uneval as un:
-                vals.append({'uneval': str(un)})
-            except ZeroDivisionError:
-                vals.append({'uneval': 'division by zero at the evaluation point'})
+            per = {}
+            for dd in pt.Ds:
+                pt.D = dd
+                try:
+                    per[str(dd)] = pt.ev(R).js()
+                    break
+                except OffLattice as ol:
+                    per[str(dd)] = {'offlattice': str(ol)}
+                except Uneval as un:
+                    per[str(dd)] = {'uneval': str(un)}
+                    break
+                except ZeroDivisionError:
+                    per[str(dd)] = {'uneval': 'division by zero at the evaluation point'}
+                    break
+            # finer lattices are also valid: give the value on every finer one that was asked for
+            got = [d for d in pt.Ds if isinstance(per.get(str(d)), list)]
+            if got:
+                for dd in pt.Ds:
+                    if dd > got[0]:
+                        pt.D = dd
+                        try:
+                            per[str(dd)] = pt.ev(R).js()
+                        except (OffLattice, Uneval, ZeroDivisionError):
+                            pass
+            pt.D = pt.Ds[0]
+            vals.append(per)
         out['values'] = vals
         if case.get('oracle', True):
             try:
@@ -697,6 +719,7 @@ def main():
     res = []
     for c in cases:
         signal.alarm(int(c.get('timeout', 40)))
+        t0 = time.time()
         try:
             r = run(c)
         except Timeout:
@@ -705,6 +728,7 @@ def main():
             r = {'status': 'crash', 'error': type(ex).__name__ + ': ' + str(ex)[:200]}
         finally:
             signal.alarm(0)
+        r['secs'] = round(time.time() - t0, 2)
         res.append(r)
     json.dump(res, sys.stdout)
 
